@@ -132,11 +132,97 @@ def tune(actor, case) -> None:
         if k != 1.0:
             for p in actor.head_net.wrapped.parameters():
                 p.mul_(k)
-        if case.get("log_std") is not None and hasattr(actor.head_net, "log_std"):
-            ls = case["log_std"]
+    set_log_std(actor, case.get("log_std"))                     # a different std per dimension
+
+
+def set_log_std(actor, ls) -> None:
+    if ls is not None and hasattr(actor.head_net, "log_std"):
+        with torch.no_grad():
             d = actor.head_net.log_std.shape[1]
-            vals = [float(ls) - 0.25 * i for i in range(d)]      # a different std per dimension
+            vals = [float(ls) - 0.25 * (i % 4) for i in range(d)]
             actor.head_net.log_std.copy_(torch.tensor([vals], dtype=torch.float32))
+
+
+def history_actor(actor, case):
+    """the network's life before it is examined: clone / every advertised architecture mutation (accepted or refused) /
+    change of log_std / state-dict round trip.  ops: ["clone"], ["mut", k] (k-th advertised method, sorted), ["log_std", v], ["sd"]"""
+    for op in case.get("history") or []:
+        if op[0] == "clone":
+            actor = actor.clone()
+        elif op[0] == "mut":
+            ms = sorted(actor.mutation_methods)
+            if ms:
+                getattr(actor, ms[int(op[1]) % len(ms)])()
+        elif op[0] == "log_std":
+            set_log_std(actor, op[1])
+        elif op[0] == "sd":
+            twin = actor.clone()
+            with torch.no_grad():
+                for p in twin.parameters():
+                    p.add_(0.5)
+            twin.load_state_dict(actor.state_dict())
+            actor = twin
+        else:
+            raise InfraError(f"unknown history op {op}")
+    return actor
+
+
+def history_agent(ag, case):
+    """ops: ["clone"], ["amut", seed, k] (Mutations.architecture_mutate; k = None: the library samples the method,
+    else the k-th method the policy advertises), ["log_std", v]"""
+    for op in case.get("history") or []:
+        if op[0] == "clone":
+            ag = ag.clone()
+        elif op[0] == "log_std":
+            for actor in (ag.actors if hasattr(ag, "actors") else [ag.actor]):
+                set_log_std(actor, op[1])
+        elif op[0] == "amut":
+            import agilerl.hpo.mutation as M
+            m = M.Mutations(no_mutation=0, architecture=1, new_layer_prob=0.5, parameters=0, activation=0, rl_hp=0,
+                            rand_seed=int(op[1]), device="cpu")
+            k = op[2] if len(op) > 2 else None
+            orig = getattr(M, "get_architecture_mut_method", None)
+            if k is not None and orig is not None:
+                def forced(ev, *a, k=k, **kw):
+                    net = ev[0] if isinstance(ev, list) else ev
+                    ms = sorted(net.mutation_methods)
+                    return ms[int(k) % len(ms)]
+                M.get_architecture_mut_method = forced
+            try:
+                ag = m.architecture_mutate(ag)
+            finally:
+                if orig is not None:
+                    M.get_architecture_mut_method = orig
+        else:
+            raise InfraError(f"unknown history op {op}")
+    return ag
+
+
+def tail_actions(spec, squash, raw, mask, ls, seed):
+    """legal but unlikely actions to re-evaluate: Box: mean + z*std with |z| up to 5 (2.5 when squashing, then tanh);
+    categorical components: the least likely allowed outcome; bits: the less likely allowed value"""
+    raw = np.asarray(raw, dtype=np.float32)
+    B = raw.shape[0]
+    if spec["kind"] == "box":
+        rng = np.random.default_rng([int(seed) & 0xFFFFFFFF, 13])
+        zmax = 2.5 if squash else 5.0
+        z = rng.choice([-1.0, 1.0], size=raw.shape) * rng.uniform(1.0, zmax, size=raw.shape)
+        u = (raw.astype(np.float64) + z * np.exp(np.asarray(ls, dtype=np.float64))).astype(np.float32)
+        return torch.tanh(torch.tensor(u)).numpy() if squash else u
+    n = raw.shape[1]
+    m = np.ones((B, n), dtype=bool) if mask is None else np.asarray(mask, dtype=bool)
+    if spec["kind"] == "multibinary":
+        return ((raw < 0) & m).astype(np.float32)
+    out = []
+    for b in range(B):
+        off, ab = 0, []
+        for nk in nvec_of(spec):
+            sl = np.where(m[b, off:off + nk], raw[b, off:off + nk], np.inf)
+            ab.append(int(np.argmin(sl)))
+            off += nk
+        out.append(ab)
+    out = np.asarray(out, dtype=np.int64)
+    return out[:, 0] if spec["kind"] == "discrete" else out
 
 
 def rows_of(case):
@@ -506,7 +592,7 @@ def build_actor(case):
                             action_std_init=float(case.get("std_init", 0.0)),
                             squash_output=bool(case.get("squash", False)))
     tune(actor, case)
-    return actor
+    return history_actor(actor, case)
 
 
 def run_actor(case):
@@ -539,6 +625,8 @@ def run_actor(case):
         actor(obs, action_mask=mask)                                               # the pass evaluate_actions makes
         u2 = cached_draw(actor)
         lp_re = actor.action_log_prob(stored)
+        tail = tail_actions(spec, squash, raw, mask, log_std_of(actor), case["seed"])
+        lp_tail = actor.action_log_prob(torch.as_tensor(tail))
         lp_re_full = None
         if spec["kind"] == "box" and squash and unit_bounds(spec):
             lp_re_full = actor.action_log_prob(full_a.clone())
@@ -603,6 +691,12 @@ def run_actor(case):
             if not close(float(lp_re_full[b]), row["lp"], 1e-4, cond_extra({**row, "mu": raw[b], "log_std": ls}) * 4 + 1e-4):
                 row["late"] = (f"row {b}: action_log_prob(action returned by actor(obs), unit bounds) = {float(lp_re_full[b])!r}, "
                                f"reported {row['lp']!r} at sampling time")
+        if tuple(lp_tail.shape) == (B,):
+            row["tail"] = {"action": np.asarray(tail[b]).reshape(-1).tolist(), "lp": float(lp_tail[b])}
+        else:
+            problems.append(f"action_log_prob has shape {tuple(lp_tail.shape)} for {B} stored actions")
+        if squash and row["ent"] is not None:
+            problems.append(f"row {b}: squash_output=True but the actor reports an entropy ({row['ent']!r}) as an unsquashed Gaussian would")
         if lp_bad is not None and lp_bad[1][b] and not float(lp_bad[0][b]) < math.log(1e-30):
             problems.append(f"row {b}: a masked action has probability exp({float(lp_bad[0][b])!r}) >= 1e-30")
         rows.append(row)
@@ -654,7 +748,7 @@ def build_ppo(case):
              action_std_init=float(case.get("std_init", 0.0)), batch_size=int(case.get("batch_size", 8)),
              learn_step=8, update_epochs=int(case.get("epochs", 1)), device="cpu", accelerator=None)
     tune(ag.actor, case)
-    return ag
+    return history_agent(ag, case)
 
 
 def run_ppo(case):
@@ -691,6 +785,14 @@ def run_ppo(case):
         if re_lp.shape != (B,):
             problems.append(f"PPO.evaluate_actions: log_prob has shape {re_lp.shape} for {B} stored actions")
             return rows, problems
+        tail = tail_actions(spec, squash, raw, None, log_std_of(ag.actor), case["seed"])
+        torch.manual_seed(case["seed"] + 4)
+        with torch.no_grad():
+            tail_lp, _, _ = ag.evaluate_actions(obs, torch.as_tensor(tail))
+        tail_lp = tail_lp.numpy().astype(np.float64)
+        if tail_lp.shape != (B,):
+            problems.append(f"PPO.evaluate_actions: log_prob has shape {tail_lp.shape} for {B} stored actions")
+            return rows, problems
     ls = log_std_of(ag.actor)
     if squash:
         want_ent = -float(np.mean(lp))
@@ -709,6 +811,7 @@ def run_ppo(case):
                "action": a2[b].tolist(), "lp": float(lp[b]), "ent": ent_rows[b], "squash": squash}
         if re_lp is not None:
             row["re"] = {"lp": float(re_lp[b]), "u2": None if (u2 is None or not squash) else u2[b].tolist()}
+            row["tail"] = {"action": np.asarray(tail[b]).reshape(-1).tolist(), "lp": float(tail_lp[b])}
         if spec["kind"] == "box":
             row.update(mu=raw[b].tolist(), log_std=ls.tolist(), u=None if u is None else u[b].tolist())
         else:
@@ -731,7 +834,7 @@ def build_ippo(case):
               device="cpu", accelerator=None)
     for actor in ag.actors:
         tune(actor, case)
-    return ag
+    return history_agent(ag, case)
 
 
 def run_ippo(case):
@@ -814,6 +917,20 @@ def run_learn(case):
         originals.append((actor, orig))
         object.__setattr__(actor, "action_log_prob", spy)
     problems = []
+    eval_orig = None
+    if algo == "PPO" and hasattr(ag, "evaluate_actions"):
+        eval_orig = ag.evaluate_actions
+
+        def eval_spy(*a, **kw):
+            n0 = len(records["actor"])
+            out = eval_orig(*a, **kw)
+            if len(records["actor"]) == n0 + 1:          # the value learn() uses is evaluate_actions' return
+                try:
+                    records["actor"][-1]["out"] = out[0].detach().clone()
+                except Exception:
+                    pass
+            return out
+        object.__setattr__(ag, "evaluate_actions", eval_spy)
     try:
         agents.seed_all(case["seed"] + 2)
         ag.learn(batch)
@@ -823,6 +940,11 @@ def run_learn(case):
         for actor, orig in originals:
             try:
                 object.__delattr__(actor, "action_log_prob")
+            except Exception:
+                pass
+        if eval_orig is not None:
+            try:
+                object.__delattr__(ag, "evaluate_actions")
             except Exception:
                 pass
     evaluated = []
@@ -855,6 +977,8 @@ def run_learn(case):
             if ci == 0:
                 ref = stored_lps[name]
                 for b in range(Bm):
+                    if spec["kind"] == "box" and saturated(rows[b]):
+                        continue          # tanh(u) rounded to +-1 in float32: the stored action no longer determines u
                     extra = cond_extra(rows[b]) if spec["kind"] == "box" else 0.0
                     if not np.any(np.abs(ref - out[b]) <= 1e-4 * (1 + abs(out[b])) + extra):
                         problems.append(f"{algo}.learn/{name}: first minibatch, before any update: re-evaluated log_prob {out[b]!r} of "
@@ -864,6 +988,17 @@ def run_learn(case):
 
 
 # ----------------------------------------------------------------------------- evaluate one case
+def tail_row(L: Lines, spec, row, problems, tag):
+    """the same distribution, an unlikely stored action: model line + float64 oracle on its re-evaluation"""
+    t = row.get("tail")
+    if not t:
+        return
+    r2 = {k: v for k, v in row.items() if k in ("raw", "mask", "squash", "mu", "log_std", "dist")}
+    r2.update(action=t["action"], lp=None, re={"lp": t["lp"], "u2": None})
+    row_lines(L, spec, r2, tag + "unlikely stored action: ")
+    oracle_row(spec, r2, problems, tag + "unlikely stored action: ")
+
+
 def eval_case(chk: Check, case, n_draws: int = 0):
     """returns (diffs, problems, tags): diffs = model/implementation disagreements, problems = oracle failures"""
     suite = case["suite"]
@@ -884,6 +1019,7 @@ def eval_case(chk: Check, case, n_draws: int = 0):
                     if "lp_unscaled" in row and not close(row["lp_unscaled"], row["lp_full"], 1e-4, extra + cond_extra(row) * 4 + 1e-4):
                         problems.append(f"row {b}: forward reported log_prob {row['lp_full']!r} with its action, but action_log_prob of the same "
                                         f"(unscaled) action under the same weights is {row['lp_unscaled']!r}")
+                tail_row(L, spec, row, problems, f"row {b}: ")
                 if row.get("late"):
                     problems.append(row["late"])
                 if row.get("late2"):
@@ -897,6 +1033,7 @@ def eval_case(chk: Check, case, n_draws: int = 0):
             for b, row in enumerate(rows):
                 row_lines(L, spec, row, f"PPO row {b}: ")
                 oracle_row(spec, row, problems, f"PPO row {b}: ")
+                tail_row(L, spec, row, problems, f"PPO row {b}: ")
             if rows and "ppoent" in rows[0]:
                 e, lps = rows[0]["ppoent"]
                 L.add(f"ppoent | {frs(lps)}", expect_val(e, "PPO stand-in entropy with squashing"))
@@ -923,9 +1060,13 @@ def eval_case(chk: Check, case, n_draws: int = 0):
         raise
     except Exception as e:  # the implementation raised on a legal configuration
         return [], [f"implementation raised, or returned objects of an unexpected shape, on a legal configuration: {type(e).__name__}: {e}"], tags, 0
+    for op in case.get("history") or []:
+        tags.append(f"history-{op[0]}")
     for spec, rows in groups:
         k = spec["kind"]
         tags.append(f"kind-{k}")
+        if flat_dim(spec) >= 16:
+            tags.append("large-space")
         for row in rows:
             if row.get("mask") is not None and not all(row["mask"]):
                 tags.append("masked-row")
@@ -967,8 +1108,21 @@ def random_mask(rng, spec):
     return out
 
 
-def random_spec(rng, kinds=("discrete", "multidiscrete", "multibinary", "box")):
+BIG_SPECS = {
+    "discrete": [{"kind": "discrete", "n": 20}, {"kind": "discrete", "n": 50}],
+    "multidiscrete": [{"kind": "multidiscrete", "nvec": [10] * 8}, {"kind": "multidiscrete", "nvec": [12] * 10},
+                      {"kind": "multidiscrete", "nvec": [11, 10, 13, 10, 12, 10, 15, 10, 10]}],
+    "multibinary": [{"kind": "multibinary", "n": 32}, {"kind": "multibinary", "n": 16}],
+    "box": [{"kind": "box", "d": 16}, {"kind": "box", "d": 24}, {"kind": "box", "d": 32}],
+}
+
+
+def random_spec(rng, kinds=("discrete", "multidiscrete", "multibinary", "box"), big=None):
     k = rng.choice(kinds)
+    if big is None:
+        big = rng.random() < 0.2
+    if big:
+        return json.loads(json.dumps(rng.choice(BIG_SPECS[k])))
     if k == "discrete":
         return {"kind": k, "n": rng.choice([2, 3, 4, 5, 7])}
     if k == "multidiscrete":
@@ -976,6 +1130,41 @@ def random_spec(rng, kinds=("discrete", "multidiscrete", "multibinary", "box")):
     if k == "multibinary":
         return {"kind": k, "n": rng.choice([1, 2, 3, 5])}
     return {"kind": k, "d": rng.choice([1, 2, 3, 5])}
+
+
+N_METHODS = 8      # StochasticActor advertises 8 architecture methods at HEAD; indices are taken modulo the real count
+
+
+def actor_history(rng):
+    if rng.random() < 0.45:
+        return []
+    ops = []
+    for _ in range(rng.randint(1, 3)):
+        r = rng.random()
+        if r < 0.2:
+            ops.append(["clone"])
+        elif r < 0.75:
+            ops.append(["mut", rng.randrange(N_METHODS)])
+        elif r < 0.9:
+            ops.append(["log_std", rng.choice([-1.0, -0.5, 0.25, 1.0])])
+        else:
+            ops.append(["sd"])
+    return ops
+
+
+def agent_history(rng):
+    if rng.random() < 0.5:
+        return []
+    ops = []
+    for _ in range(rng.randint(1, 2)):
+        r = rng.random()
+        if r < 0.25:
+            ops.append(["clone"])
+        elif r < 0.85:
+            ops.append(["amut", rng.randrange(1 << 20), None if rng.random() < 0.4 else rng.randrange(N_METHODS)])
+        else:
+            ops.append(["log_std", rng.choice([-1.0, -0.5, 0.25])])
+    return ops
 
 
 def gen_rows(rng, spec, masked: bool, nrows=None):
@@ -987,13 +1176,16 @@ def gen_rows(rng, spec, masked: bool, nrows=None):
 def common_fields(rng, spec):
     f = {"seed": rng.randrange(1 << 30), "scale": rng.choice([1.0, 4.0, 16.0])}
     if spec["kind"] == "box":
-        f["std_init"] = rng.choice([0.0, 0.0, 0.5, 1.0])
-        f["log_std"] = rng.choice([None, None, -1.0, -0.5, 0.25])
+        f["std_init"] = rng.choice([0.0, 0.0, 0.5, 1.0, 0.05, 2.5, 3.0])
+        f["log_std"] = rng.choice([None, None, None, -1.0, -0.5, 0.25])
         f["squash"] = rng.random() < 0.55
         if f["squash"]:
+            f["std_init"] = min(f["std_init"], 1.0)
             f["scale"] = rng.choice([1.0, 2.0, 4.0])
             r = rng.random()
             d = int(spec["d"])
+            if d > 5:
+                r = r if r < 0.35 else 1.0          # only scalar bounds for the large spaces
             if r < 0.2:
                 spec["low"], spec["high"] = -2.0, 2.0
             elif r < 0.35:
@@ -1032,14 +1224,28 @@ def gen_cases(chk: Check):
     rng = chk.rng
     quick = chk.tier == "quick"
     cases = exhaustive_mask_cases(rng)
-    for _ in range(100 if quick else 400):                     # the actor directly
-        spec = random_spec(rng)
+    # every architecture method the actor advertises, once on a squashed and once on a plain Box policy
+    for k in range(N_METHODS):
+        for squash in (True, False):
+            spec = {"kind": "box", "d": 2}
+            cases.append({"suite": "actor", "spec": spec, "rows": gen_rows(rng, spec, False, 2), "seed": rng.randrange(1 << 30),
+                          "scale": 2.0, "std_init": 0.0, "squash": squash, "history": [["mut", k]]})
+    for k in range(N_METHODS if not quick else 4):           # the same through Mutations.architecture_mutate on PPO
+        kk = [0, N_METHODS - 1, 1, 3][k] if quick else k
+        spec = {"kind": "box", "d": 2}
+        cases.append({"suite": "ppo", "spec": spec, "rows": gen_rows(rng, spec, False, 2), "seed": rng.randrange(1 << 30),
+                      "scale": 2.0, "std_init": 0.0, "squash": True, "history": [["amut", rng.randrange(1 << 20), kk]]})
+    kinds4 = ("discrete", "multidiscrete", "multibinary", "box")
+    for i in range(100 if quick else 400):                    # the actor directly
+        spec = random_spec(rng, big=True, kinds=(kinds4[i % 4],)) if i < 8 else random_spec(rng)
         masked = spec["kind"] != "box" and rng.random() < 0.6
-        cases.append({"suite": "actor", "spec": spec, "rows": gen_rows(rng, spec, masked), **common_fields(rng, spec)})
-    for _ in range(60 if quick else 240):                     # PPO.get_action / evaluate_actions
-        spec = random_spec(rng)
+        cases.append({"suite": "actor", "spec": spec, "rows": gen_rows(rng, spec, masked), **common_fields(rng, spec),
+                      "history": actor_history(rng)})
+    for i in range(60 if quick else 240):                     # PPO.get_action / evaluate_actions
+        spec = random_spec(rng, big=True, kinds=(kinds4[i % 4],)) if i < 8 else random_spec(rng)
         masked = spec["kind"] != "box" and rng.random() < 0.4
-        cases.append({"suite": "ppo", "spec": spec, "rows": gen_rows(rng, spec, masked), **common_fields(rng, spec)})
+        cases.append({"suite": "ppo", "spec": spec, "rows": gen_rows(rng, spec, masked), **common_fields(rng, spec),
+                      "history": agent_history(rng)})
     for _ in range(24 if quick else 80):                     # IPPO.get_action
         masks = rng.random() < 0.5
         kinds = ("discrete", "multidiscrete", "multibinary") if masks else ("discrete", "multidiscrete", "multibinary", "box")
@@ -1052,18 +1258,20 @@ def gen_cases(chk: Check):
             specs = [random_spec(rng, kinds) for _ in ids]
         rows = [[i, None] for i in rng.sample(range(POOL), rng.randint(2, 3))]
         c = {"suite": "ippo", "agent_ids": ids, "specs": specs, "rows": rows, "seed": rng.randrange(1 << 30),
-             "scale": rng.choice([1.0, 4.0]), "std_init": rng.choice([0.0, 0.5])}
+             "scale": rng.choice([1.0, 4.0]), "std_init": rng.choice([0.0, 0.5, 0.05, 2.5]), "history": agent_history(rng)}
         if masks:
             c["masks"] = {a: [random_mask(rng, specs[k]) for _ in rows] for k, a in enumerate(ids)}
         cases.append(c)
     one_dim = [{"kind": "box", "d": 1}, {"kind": "multibinary", "n": 1}, {"kind": "multidiscrete", "nvec": [3]}]
     for i in range(16 if quick else 50):                      # what learn() re-evaluates
-        spec = one_dim[i % 3] if i < 3 or rng.random() < 0.25 else random_spec(rng)
-        c = {"suite": "learn", "algo": "PPO", "spec": spec, "rows": [], **common_fields(rng, spec)}
+        spec = one_dim[i % 3] if i < 3 or rng.random() < 0.25 else \
+            (random_spec(rng, big=True, kinds=(kinds4[i % 4],)) if i < 7 else random_spec(rng))
+        c = {"suite": "learn", "algo": "PPO", "spec": spec, "rows": [], **common_fields(rng, spec),
+             "history": agent_history(rng) if i >= 7 else []}
         c["scale"] = min(c["scale"], 4.0)
         cases.append(c)
     for i in range(8 if quick else 24):
-        s0 = one_dim[i % 3] if i < 3 else random_spec(rng)
+        s0 = one_dim[i % 3] if i < 3 else (random_spec(rng, big=True) if i < 5 else random_spec(rng))
         s1 = random_spec(rng)
         cases.append({"suite": "learn", "algo": "IPPO", "agent_ids": ["agent_0", "agent_1", "other_0"], "specs": [s0, s0, s1],
                       "rows": [], "seed": rng.randrange(1 << 30), "scale": rng.choice([1.0, 4.0]), "std_init": 0.0})
@@ -1132,9 +1340,10 @@ def run(chk: Check) -> None:
     for case in cases:
         nd = n_draws if case["suite"] == "actor" else 0
         diffs, problems, tags, _ = eval_case(chk, case, nd)
-        nontrivial = any(t in ("masked-row", "squash-row", "stored-reeval", "kind-multidiscrete", "kind-multibinary") for t in tags)
+        nontrivial = any(t in ("masked-row", "squash-row", "stored-reeval", "kind-multidiscrete", "kind-multibinary", "large-space")
+                         or t.startswith("history-") for t in tags)
         chk.case(case_key(case), nontrivial=nontrivial,
-                 sample={k: case[k] for k in ("suite", "spec", "specs", "squash", "scale", "log_std", "algo") if k in case},
+                 sample={k: case[k] for k in ("suite", "spec", "specs", "squash", "scale", "log_std", "std_init", "history", "algo") if k in case},
                  tags=sorted(set(tags)))
         s = per_suite.setdefault(case["suite"], [0, 0])
         s[0] += 1
